@@ -237,6 +237,12 @@ def part_lp_reader_model(ck, variant):
 def mps_tie_cases(rng, n, G):
     """(cid, kind, text or None, script) for the MPS reader tie: independently rendered files, token-mutated files, library-written files"""
     out = []
+    for j, (nm, t) in enumerate(G.mps_accept_probes()):
+        tb = t.encode("latin-1")
+        out.append(("p%d" % j, "probe " + nm, tb, "CASE p%d\nPUT f %s\nREAD h0 f MPS\nDUMPO h0\n" % (j, enc(tb))))
+    for j, (nm, t) in enumerate(sorted(G.mps_reason_files().items())):
+        tb = t.encode("latin-1")
+        out.append(("q%d" % j, "reason " + nm, tb, "CASE q%d\nPUT f %s\nREAD h0 f MPS\nDUMPO h0\n" % (j, enc(tb))))
     for i in range(n):
         cid = "m%d" % i
         if i % 3 == 2:
@@ -301,12 +307,17 @@ def part_mps_reader_model(ck, variant):
     for cid in lib:
         a = ans.get(cid)
         ck.count(("mpsread", texts[cid]), nontrivial=(a is not None and a[0] == "OK"))
-        key = "%s: %s" % (kind[cid], "accepted by both" if (a and a[0] == "OK" and lib[cid] is not None) else "rejected by both" if (a and a[0] != "OK" and lib[cid] is None) else "DISAGREE")
+        key = "%s: %s" % (kind[cid].split(" ")[0] if kind[cid].startswith(("probe ", "reason ")) else kind[cid],
+                          "accepted by both" if (a and a[0] == "OK" and lib[cid] is not None) else "rejected by both" if (a and a[0] != "OK" and lib[cid] is None) else "DISAGREE")
         hist[key] = hist.get(key, 0) + 1
         if a and a[0].startswith("ERR:"):
             reasons[a[0][4:]] = reasons.get(a[0][4:], 0) + 1
         if a is None or len(a) < 2 or a[1] != "true" or a[0] in ("FUEL", "FLT"):
             bad.append((cid, a))
+        elif kind[cid].startswith("reason ") and a[0] != "ERR:" + kind[cid][7:]:
+            bad.append((cid, a + ["(expected rejection reason %s)" % kind[cid][7:]]))
+        elif kind[cid].startswith("probe ") and a[0] != "OK":
+            bad.append((cid, a + ["(a probe that the reader accepts)"]))
     ck.cov["mps_reader_correspondence"] = dict(files=len(lib), outcome_histogram=hist, model_rejection_reasons=reasons, disagreements=len(bad))
     for cid, a in bad[:3]:
         ck.violation("mpsread_%s.txt" % cid, scripts[cid] + "\n# model answer (outcome, agree, ncols, nrows): %s\n# library: %s\n# text:\n%s\n" % (
